@@ -1425,6 +1425,10 @@ def c02_cases(ctx, rng=None):
                         c = mut if side == "c" else streams["c"]
                         s = mut if side == "s" else streams["s"]
                         cases.append((case_line("sz%d%s%d_%d_%d" % (ci, side, off, v, tail), c, s, ct=tail, st=tail, order="cs"), what, len(c) + len(s)))
+    # ends of stream by an error that says "time-out" (once, and on every further read): the half ends, whatever the kind of error
+    for ci, conv in enumerate(convs):
+        for tail in (3, 4):
+            cases.append((case_line("to%d_%d" % (ci, tail), conv.stream("c"), conv.stream("s"), ct=tail, st=tail, order="cs"), "timeout-tail", len(conv.stream("c")) + len(conv.stream("s"))))
     # two size fields at once (an outer and an inner declared size both far beyond the bytes present): every pair of the size
     # fields of the conversation with a table of every field type, both set to the largest positive value of their width
     conv = convs[-1]
